@@ -71,7 +71,16 @@ let parse_event (t : string) : event * key list option =
             | _ -> failwith "bad D")
   | _ -> failwith "bad event"
 
+(* the model's messages go through the transaction layer (Registry/Transaction.v: bus_transaction_send for each,
+   then bus_transaction_execute_and_free), with a message of another transaction already waiting in every list;
+   what comes out is what is printed and compared per socket *)
+let via_transaction (os : out list) : out list =
+  let tid = n_of_int 7 and other = n_of_int 3 in
+  let ts0 = { tp = (fun _ -> [(other, MFault)]); tc = [] } in
+  fst (texec tid (stage_all (fun _ -> true) tid ts0 os))
+
 let model_res (b : bus) (os : out list) (probes : qarg list) (ptxt : string list) : string =
+  let os = via_transaction os in
   let qs = List.map2 (fun a t -> t ^ "=" ^ owner_s (get_name_owner b a) ^ "/" ^ (if name_has_owner b a then "1" else "0") ^ "/"
                                  ^ queued_s (list_queued_owners b a)) probes ptxt in
   let names = List.map (function None -> "B" | Some k -> key_s k) (list_names b) in
@@ -116,5 +125,120 @@ let run_history (args : string list) : string =
       String.concat " | " blocks
   | _ -> "?bad-args"
 
+(* ---------------------------------------------------------------------------------------------
+   driver layer (Registry/Driver.v): raw strings on the wire, own-policy gate, ReloadConfig
+
+   input   drun <limit> <rules|-> <probe,probe,..|-> <event> ...
+           rules  '+'-joined:  a* | d* | aN<hex> | dN<hex> | aP<hex> | dP<hex>     (allow/deny own="*" / own=name / own_prefix=name)
+           probe  x<hex>            raw argument string of the query methods, asked by connection 0 after every event
+           event  as for `run`, plus  W<c>,<rules|->,<limit>   (ReloadConfig by connection c)
+   output  blocks "M <res> S <res|=> L <res|=> T <0|1>" as for `run`; strings in hex ("-" = empty),
+           errors as e:<Name>                                                                              *)
+let hexs (l : n list) = hex_of_bytes l
+let werr_s = function WInvalidArgs -> "InvalidArgs" | WAccessDenied -> "AccessDenied" | WLimitsExceeded -> "LimitsExceeded"
+                    | WFailed -> "Failed" | WNameHasNoOwner -> "NameHasNoOwner"
+let wmsg_s = function
+  | WHello u -> "hello:" ^ hexs u
+  | WU32 c -> "reply:" ^ string_of_int (int_of_n c)
+  | WAck -> "ack"
+  | WErr e -> "err:" ^ werr_s e
+  | WAcquired s -> "acq:" ^ hexs s
+  | WLost s -> "lost:" ^ hexs s
+  | WNOC (s, a, b) -> "noc:" ^ hexs s ^ ":" ^ hexs a ^ ":" ^ hexs b
+  | WStr s -> "s" ^ hexs s
+  | WBool b -> if b then "1" else "0"
+  | WList l -> if l = [] then "empty" else String.concat "+" (List.map hexs l)
+  | WFault -> "FAULT"
+let wouts_s (os : wout list) = join "," (List.map (fun (c, m) -> string_of_int (int_of_n c) ^ ">" ^ wmsg_s m) os)
+(* a query answer as the harness prints it *)
+let answer_s = function
+  | [(_, WErr e)] -> "e:" ^ werr_s e
+  | [(_, m)] -> wmsg_s m
+  | _ -> "FAULT"
+
+let parse_rules (t : string) : rule list =
+  if t = "-" then [] else
+  List.map (fun r ->
+    let allow = (r.[0] = 'a') in
+    let r0 = rule_new KOwn allow in
+    if r.[1] = '*' then r0
+    else let name = bytes_of_hex (String.sub r 2 (String.length r - 2)) in
+         if r.[1] = 'N' then { r0 with r_name = Some name }
+         else { r0 with r_name = Some name; r_prefix = true }) (String.split_on_char '+' t)
+
+let sorted_names (l : string list) = String.concat "+" (List.sort compare l)
+
+(* the model's answers to the probes, asked by connection 0 *)
+let dmodel_res (d : dbus) (os : wout list) (probes : n list list) (ptxt : string list) : string =
+  let c0 = n_of_int 0 in
+  let qs = List.map2 (fun s t ->
+      t ^ "=" ^ answer_s (snd (dstep d (DGetNameOwner (c0, s)))) ^ "/" ^ answer_s (snd (dstep d (DNameHasOwner (c0, s)))) ^ "/"
+        ^ answer_s (snd (dstep d (DListQueuedOwners (c0, s))))) probes ptxt in
+  let names = match snd (dstep d (DListNames c0)) with
+    | [(_, WList l)] -> sorted_names (List.map hexs l)
+    | o -> answer_s o in
+  wouts_s os ^ ";" ^ join "," qs ^ ";" ^ names
+
+(* the specification's answers, rendered with the names the model handed out *)
+let dspec_res (d : dbus) (s : sstate) (os : out list) (probes : n list list) (ptxt : string list) : string =
+  let ws = function None -> "e:NameHasNoOwner" | Some w -> (match who_str d w with Some u -> "s" ^ hexs u | None -> "e:Failed") in
+  let wl = function None -> "e:NameHasNoOwner"
+                  | Some l -> if l = [] then "empty" else String.concat "+" (List.map (fun w -> match who_str d w with Some u -> hexs u | None -> "?") l) in
+  let conn0_active = (match find_conn (b_conns (d_bus d)) (n_of_int 0) with Some cn -> cn.c_active | None -> false) in
+  let conn0_known = (match find_conn (b_conns (d_bus d)) (n_of_int 0) with Some _ -> true | None -> false) in
+  let qs = List.map2 (fun str t ->
+      let a = resolve d str in
+      if not conn0_known then t ^ "=FAULT/FAULT/FAULT"
+      else if not conn0_active then t ^ "=e:AccessDenied/e:AccessDenied/e:AccessDenied"
+      else t ^ "=" ^ ws (spec_owner s a) ^ "/" ^ (if spec_has_owner s a then "1" else "0") ^ "/" ^ wl (spec_queued s a)) probes ptxt in
+  let names =
+    if not conn0_known then "FAULT" else if not conn0_active then "e:AccessDenied" else
+    sorted_names (hexs dBUS_SERVICE_DBUS_str ::
+                  List.map (fun (k, _) -> match kstr d k with Some u -> hexs u | None -> "?") (List.filter (fun (_, q) -> q <> []) (s_names s))) in
+  wouts_s (render d os) ^ ";" ^ join "," qs ^ ";" ^ names
+
+let drun_history (args : string list) : string =
+  match args with
+  | limit :: rules :: probes :: evs ->
+      let ptxt = if probes = "-" then [] else String.split_on_char ',' probes in
+      let pq = List.map (fun t -> bytes_of_hex (String.sub t 1 (String.length t - 1))) ptxt in
+      let d = ref (dinit (parse_rules rules) (n_of_int (int_of_string limit))) in
+      let rl = ref (parse_rules rules) in
+      let s = ref (sinit (n_of_int (int_of_string limit))) in
+      let blocks = List.map (fun t ->
+        if t.[0] = 'W' then begin
+          match String.split_on_char ',' (String.sub t 1 (String.length t - 1)) with
+          | [c; r; l] ->
+              let c = n_of_int (int_of_string c) and nr = parse_rules r and nl = n_of_int (int_of_string l) in
+              let (d', mo) = dstep !d (DReload (c, nr, nl)) in
+              (* the specification: the caller gets its acknowledgement, limit and rules change, names stay *)
+              let ok = (match mo with [(_, WAck)] -> true | _ -> false) in
+              if ok then begin s := spec_reload !s nl; rl := nr end;
+              d := d';
+              let m = dmodel_res d' mo pq ptxt in
+              let so = if ok then [(c, MAck)] else (match find_conn (b_conns (d_bus d')) c with Some _ -> [(c, MError EAccessDenied)] | None -> [(c, MFault)]) in
+              let sr = dspec_res d' !s so pq ptxt in
+              "M " ^ m ^ " S " ^ (if sr = m then "=" else sr) ^ " L " ^ (if sr = m then "=" else sr) ^ " T 0"
+          | _ -> failwith "bad W"
+        end else begin
+          let (e, ord) = parse_event t in
+          let ord = match ord, e with
+            | Some o, _ -> o
+            | None, EvDisconnect c -> (match find_conn (b_conns (d_bus !d)) c with Some cn -> List.rev (c_owned cn) | None -> [])
+            | None, _ -> [] in
+          let trig = exception_trigger !s e in
+          let (d', mo) = dstep !d (DReg e) in
+          let (s', so) = dspec_step as_implemented !rl !s e ord in
+          let (l', lo) = dspec_step literal !rl !s e ord in
+          d := d'; s := s';
+          let m = dmodel_res d' mo pq ptxt in
+          let sr = dspec_res d' s' so pq ptxt in
+          let lr = dspec_res d' l' lo pq ptxt in
+          "M " ^ m ^ " S " ^ (if sr = m then "=" else sr) ^ " L " ^ (if lr = m then "=" else lr) ^ " T " ^ (if trig then "1" else "0")
+        end) evs in
+      String.concat " | " blocks
+  | _ -> "?bad-args"
+
 let handlers : (string, string list -> string) Hashtbl.t = Hashtbl.create 8
 let () = Hashtbl.replace handlers "run" run_history
+let () = Hashtbl.replace handlers "drun" drun_history
